@@ -158,7 +158,7 @@ def _exec(ctx, err, model, step, prog, depthlog):
               'mixed2': {'obsdup': 'print', 'sampdup': 'bogus'}}[op]
         try:
             err.seterr(**kw)
-        except KeyError:
+        except Exception:
             ctx.count('refused_calls')
         else:
             raise Violation('C20/not-refused', 'seterr(**%r) was accepted; '
@@ -174,7 +174,7 @@ def _exec(ctx, err, model, step, prog, depthlog):
     elif op == 'setcall_bad':
         try:
             err.seterrcall('nosuchkind', _cb('x'))
-        except KeyError:
+        except Exception:
             ctx.count('refused_calls')
         else:
             raise Violation('C20/not-refused', 'seterrcall(unknown kind) '
@@ -183,7 +183,7 @@ def _exec(ctx, err, model, step, prog, depthlog):
         try:
             with err.errstate(**{'empty': 'raise', 'nosuch': 'warn'}):
                 pass
-        except KeyError:
+        except Exception:
             ctx.count('refused_calls')
         else:
             raise Violation('C20/not-refused', 'errstate with unknown kind '
@@ -391,7 +391,7 @@ def run_reaction(ctx, r, index):
                 f.seek(pos)
                 printed = f.read()
         wmsgs = [str(x.message) for x in w
-                 if 'biom' in (x.filename or '') or str(x.message) in
+                 if '/biom/' in (x.filename or '') or str(x.message) in
                  MSG.values()]
         obs = {'raised': str(raised) if raised else None, 'warnings': wmsgs,
                'printed': printed, 'callbacks': len(calls)}
@@ -442,6 +442,24 @@ def run_reaction(ctx, r, index):
 
 
 # ------------------------------------------------------------------- driver
+def calibrate_messages(ctx):
+    """The text of each kind's message is not part of the property; what
+    is, is that 'warn' and 'print' emit the message of that kind.  The
+    reference text is what 'raise' produces for the same kind."""
+    err = ctx.err
+    for kind in KINDS:
+        _reset(err)
+        err.seterr(**{k: ('raise' if k == kind else 'ignore')
+                      for k in KINDS})
+        try:
+            ctx.biom.Table(**_inputs(kind))
+        except ctx.TableException as e:
+            MSG[kind] = str(e)
+        except Exception:
+            pass
+    _reset(err)
+
+
 def setup(ctx):
     import biom.err
     from biom.exception import TableException
@@ -456,6 +474,7 @@ def setup(ctx):
     os.close(fd)
     if biom.err.stdout is not sys.stdout:
         ctx.count('stdout_object_differs')
+    calibrate_messages(ctx)
 
 
 def run_case(ctx, index):
